@@ -67,6 +67,12 @@ def dput(d, k, v):
     return r
 
 
+def ddel(d, k):
+    r = OrderedDict(d)
+    r.pop(k, None)
+    return r
+
+
 def dapp(a, b):
     return OrderedDict(list(a.items()) + list(b.items()))
 
@@ -90,7 +96,7 @@ def ddisj(a, b):
 def base_ns(module_globals):
     ns = dict(module_globals)
     ns.update(_eq=lambda a, b: norm(a) == norm(b), implies=lambda a, b: (not a) or b, forall_items=_forall_items)
-    for k, v in dict(seq_prefix=seq_prefix, dapp=dapp, dhas=dhas, dhead=dhead, dtail=dtail, dcons=dcons, dput=dput, dwf=dwf, ddisj=ddisj, odict=OrderedDict).items():
+    for k, v in dict(seq_prefix=seq_prefix, dapp=dapp, ddel=ddel, dhas=dhas, dhead=dhead, dtail=dtail, dcons=dcons, dput=dput, dwf=dwf, ddisj=ddisj, odict=OrderedDict).items():
         ns.setdefault(k, v)
     return ns
 
@@ -140,7 +146,8 @@ def check_case(contract, fn, kwargs, module_globals):
     result, exc, after = run_real(contract, fn, kwargs)
     env = dict(ns)
     env.update(after)
-    env["old"] = None
+    if "old" not in kwargs:       # (a parameter may itself be called `old`; old(<name>) is rewritten to __old_<name> below)
+        env["old"] = None
     env["result"] = result
     env["_out"] = result
 
